@@ -37,11 +37,12 @@ func (c06) Batches(tier string, seed uint64) []core.Batch {
 	b = append(b, spread("setrand", 2, tierN(tier, 10000, 60000))...)
 	b = append(b, spread("poss", 8, tierN(tier, 1500, 8000))...)
 	b = append(b, spread("sat", 6, 0)...)
+	b = append(b, core.Batch{Name: "satmix", N: tierN(tier, 800000, 4000000)}) // 8 goroutines ask about DIFFERENT numbers at once
 	return append(b, conc(tierN(tier, 120, 800), "setrand", "poss", "sat")...)
 }
 
 func (c06) Mandatory(tier string) []string {
-	m := []string{"is:wild0:true", "is:wild0:false", "is:wild1:true", "is:wild1:false", "is:wild2:true", "is:wild2:false", "is:wild3:true", "is:all-vs-all", "is:all-vs-any:false",
+	m := []string{"conc:different-numbers-asked-by-8-goroutines-at-once", "is:wild0:true", "is:wild0:false", "is:wild1:true", "is:wild1:false", "is:wild2:true", "is:wild2:false", "is:wild3:true", "is:all-vs-all", "is:all-vs-any:false",
 		"is:via-literal", "is:via-ParseArch", "is:via-UnmarshalControl", "real:2part-vs-self", "real:2part-vs-os-any", "real:1part-vs-linux-any",
 		"set:len0", "set:len1:neg:true", "set:len1:neg:false", "set:len1:pos:true", "set:len1:pos:false", "set:len2:neg:true", "set:len2:neg:false", "set:len2:pos:true", "set:len2:pos:false",
 		"poss:chosen-alt0", "poss:chosen-alt1", "poss:chosen-alt2+", "poss:none-admitted", "poss:substvar-skipped", "poss:via-parse", "poss:via-literal", "poss:nil-archset",
@@ -284,6 +285,10 @@ func (p c06) RunBatch(t *core.T, b core.Batch) {
 				t.Case("poss", in, func(c *core.C) { p.possCase(c, d, mode) })
 			}
 		}
+	case "satmix":
+		in := volInput(t.Rand("satmix").U64(), b.N)
+		vc, _ := volDecode(in)
+		t.Case("satmix", in, func(c *core.C) { satMix(c, t, vc) })
 	case "sat":
 		pool := c02Pool("quick", t.Seed)[:60]
 		ops := append(append([]string{}, gen.Ops...), "", "<", ">", "==", "!=")
@@ -556,6 +561,10 @@ func (p c06) RunCase(t *core.T, kind string, input []byte) {
 		}
 		if json.Unmarshal(input, &cs) == nil {
 			t.Case(kind, input, func(c *core.C) { p.possCase(c, cs.Dep, cs.Mode) })
+		}
+	case "satmix":
+		if vc, ok := volDecode(input); ok {
+			t.Case(kind, input, func(c *core.C) { satMix(c, t, vc) })
 		}
 	case "sat":
 		parts := strings.SplitN(string(input), "\x1e", 3)
